@@ -2,7 +2,9 @@
   M3 — model of the cursor / hold / flush / discard protocol of `lemoncheesecake/session.py`.
 
   One `Cursor` per thread (the `threading.local`), the shared failure set (`_failures`), the shared
-  attachment counter, and the list of events fired so far (what `event_manager.fire` received, in
+  attachment counter, the attachments that are prepared but not yet reported (`prepare_attachment` is a
+  context manager: the name is computed on entry, the event is fired on exit, the user's `with` body runs
+  in between), and the list of events fired so far (what `event_manager.fire` received, in
   order).  Every `Event(...)` construction reads the clock once; with the harness's fake clock
   (+1 per read) `now` is exactly that counter, so fired events can be compared including times.
   Core Lean only.
@@ -18,21 +20,32 @@ structure Cursor where
   pending : List Event          -- `pending_events`, oldest first
 deriving Repr, DecidableEq
 
+/-- a `prepare_attachment(filename, description, as_image)` context manager that has been entered (by
+    thread `tid`) and not yet left: what its generator frame remembers -/
+structure Prep where
+  tid : Nat
+  name : String                 -- "attachments/%04d_<filename>", computed on entry
+  description : String
+  asImage : Bool
+deriving Repr, DecidableEq
+
 structure St where
   cursors : List (Nat × Cursor)        -- thread id ↦ cursor (`self._local.cursor`); first match wins
   saved : List (Nat × Cursor × Option String)  -- lcc.Thread objects created but not yet running: tid ↦ (cursor, default step)
   failures : List Loc                  -- `_failures` (a set; membership is what matters)
   fired : List Event                   -- events given to `event_manager.fire`, oldest first
   attachCount : Nat
+  prepared : List Prep                 -- entered `prepare_attachment` blocks, newest first (per thread: a LIFO stack)
   now : Nat                            -- fake clock: value the next `time.time()` returns
 deriving Repr
 
-def St.init : St := { cursors := [], saved := [], failures := [], fired := [], attachCount := 0, now := 1 }
+def St.init : St := { cursors := [], saved := [], failures := [], fired := [], attachCount := 0, prepared := [], now := 1 }
 
 inductive Err
   | noCursor            -- AttributeError: thread-local has no cursor
   | noStep              -- AssertionError "There is no started step"
   | noSavedThread
+  | noAttach            -- leaving a `prepare_attachment` block that was never entered: not expressible in Python
 deriving Repr, DecidableEq
 
 /-- the API calls of `Session` (and of `lcc.Thread`), each issued by thread `tid` -/
@@ -50,7 +63,9 @@ inductive Op
   | log (level : LogLevel) (message : String)
   | check (description : String) (ok : Bool) (details : Option String)
   | url (url description : String)
-  | attach (filename description : String) (asImage : Bool)
+  | attach (filename description : String) (asImage : Bool)   -- `with prepare_attachment(..)` with a body that calls no api
+  | attachBegin (filename description : String) (asImage : Bool)  -- entering `with prepare_attachment(..)`
+  | attachEnd                                                -- leaving the innermost block this thread entered
   | threadCreate (newTid : Nat)        -- `lcc.Thread(...)` constructed by thread `tid`
   | threadRun                          -- `Thread.run` prologue, executed by the new thread itself
   | threadEnd                          -- `Thread.run` epilogue (`finally: end_step()`)
@@ -172,6 +187,18 @@ def step (s : St) (tid : Nat) : Op → Except Err St
     let n := s.attachCount + 1
     let s := { s with attachCount := n }
     stepped s tid false (fun loc st t => .attachment loc st tid (attachName n filename) d asImage t)
+  | .attachBegin filename d asImage =>
+    -- under `_attachment_lock`: compute the name, bump the counter; then `yield`.  The cursor is not touched.
+    let n := s.attachCount + 1
+    .ok { s with attachCount := n,
+                 prepared := { tid := tid, name := attachName n filename, description := d, asImage := asImage } :: s.prepared }
+  | .attachEnd =>
+    -- after the `yield`: flush, then fire the event with the location and step the cursor has NOW
+    match s.prepared.find? (fun p => p.tid == tid) with
+    | none => .error .noAttach
+    | some p =>
+      let s := { s with prepared := s.prepared.eraseP (fun p => p.tid == tid) }
+      stepped s tid false (fun loc st t => .attachment loc st tid p.name p.description p.asImage t)
   | .threadCreate newTid =>
     withCursor s tid fun c =>
       -- precondition (always true when the runner calls user code): a step is current; without one the
